@@ -107,6 +107,108 @@ pub(crate) mod verif_e7 {
         core::mem::forget(mg);
     }
 
+    // ---- the three contracts unit E7V (Verus) assumes of code outside Verus' reach, checked here on the real functions ----
+
+    fn any_store<const CAP: usize>() -> SuffixStore {
+        let mut st = SuffixStore::with_capacity(CAP);
+        // arbitrary content in two arbitrary slots (the operations touch exactly one slot)
+        let p1: usize = vk::any();
+        let p2: usize = vk::any();
+        vk::assume(p1 < CAP && p2 < CAP);
+        let v1: usize = vk::any();
+        let v2: usize = vk::any();
+        st.slots[p1] = NonZeroUsize::new(v1);
+        st.slots[p2] = NonZeroUsize::new(v2);
+        st
+    }
+    fn store_holds(st: &SuffixStore, i: usize, probe: usize) -> bool {
+        // `holds(i)`: some slot stores i (+1); `probe` is an arbitrary slot so the check is loop-free
+        i != usize::MAX && st.slots[probe] == NonZeroUsize::new(i + 1)
+    }
+
+    /// SuffixStore::get returns only stored indices; insert adds nothing but `idx`; neither panics (key stays in range)
+    pub(crate) fn suffix_store_body<const CAP: usize>() {
+        let mut st = any_store::<CAP>();
+        let suffix: [u8; 5] = vk::any();
+        let k = st.key(&suffix);
+        assert!(k < CAP, "E7: SuffixStore::key out of range");
+        if let Some(i) = st.get(&suffix) {
+            assert!(store_holds(&st, i, k), "E7: SuffixStore::get returned an index that is not stored");
+        }
+        assert!(st.contains_key(&suffix) == st.get(&suffix).is_some(), "E7: contains_key disagrees with get");
+        let probe: usize = vk::any();
+        vk::assume(probe < CAP);
+        let before = st.slots[probe];
+        let idx: usize = vk::any();
+        vk::assume(idx < usize::MAX);
+        st.insert(&suffix, idx);
+        let after = st.slots[probe];
+        assert!(after == before || after == NonZeroUsize::new(idx + 1), "E7: SuffixStore::insert changed a slot to something other than idx");
+        assert!(st.get(&suffix) == Some(idx), "E7: SuffixStore::get after insert");
+        core::mem::forget(st);
+    }
+    #[cfg_attr(kani, kani::proof)]
+    #[cfg_attr(kani, kani::unwind(12))]
+    #[cfg_attr(killingspark_zstd_rs_verif, no_mangle)]
+    pub fn e7_suffix_store_8() { suffix_store_body::<8>(); }
+
+    /// common_prefix_len(a, b) = r: r <= both lengths, the first r bytes agree, and r is maximal
+    pub(crate) fn common_prefix_body<const A: usize, const B: usize>() {
+        let a: [u8; A] = vk::any();
+        let b: [u8; B] = vk::any();
+        let r = MatchGenerator::common_prefix_len(&a, &b);
+        assert!(r <= A && r <= B, "E7: common_prefix_len longer than an operand");
+        let i: usize = vk::any();
+        if i < r { assert!(a[i] == b[i], "E7: common_prefix_len counts bytes that differ"); }
+        if r < A && r < B { assert!(a[r] != b[r], "E7: common_prefix_len stops early"); }
+    }
+    macro_rules! cp {
+        ($name:ident, $a:expr, $b:expr) => {
+            #[cfg_attr(kani, kani::proof)]
+            #[cfg_attr(kani, kani::unwind(20))]
+            #[cfg_attr(killingspark_zstd_rs_verif, no_mangle)]
+            pub fn $name() { common_prefix_body::<$a, $b>(); }
+        };
+    }
+    cp!(e7_common_prefix_3_10, 3, 10);
+    cp!(e7_common_prefix_10_9, 10, 9);
+    cp!(e7_common_prefix_17_16, 17, 16);
+    cp!(e7_common_prefix_0_4, 0, 4);
+
+    /// add_suffixes_till(idx): touches nothing but the newest entry's suffix store, and only adds indices in [suffix_idx, idx)
+    pub(crate) fn add_suffixes_body<const LEN: usize>() {
+        let data: [u8; LEN] = vk::any();
+        let mut mg = MatchGenerator::new(64);
+        mg.add_data(alloc::vec![1u8, 2, 3], SuffixStore::with_capacity(8), |_d, _s| {});
+        mg.skip_matching();
+        mg.add_data(data.to_vec(), SuffixStore::with_capacity(8), |_d, _s| {});
+        let from: usize = vk::any();
+        let idx: usize = vk::any();
+        vk::assume(from <= idx && idx <= LEN);
+        mg.suffix_idx = from;
+        mg.add_suffixes_till(idx);
+        assert!(mg.suffix_idx == from && mg.window.len() == 2 && mg.window_size == 3 + LEN && mg.window[0].base_offset == 3 && mg.window[1].base_offset == 0,
+            "E7: add_suffixes_till changed window bookkeeping");
+        let probe: usize = vk::any();
+        vk::assume(probe < 8);
+        assert!(mg.window[0].suffixes.slots[probe].is_none(), "E7: add_suffixes_till touched an older entry's store");
+        if let Some(v) = mg.window[1].suffixes.slots[probe] {
+            let i = <NonZeroUsize as Into<usize>>::into(v) - 1;
+            assert!(from <= i && i < idx && i + MIN_MATCH_LEN <= idx, "E7: add_suffixes_till stored an index outside [suffix_idx, idx)");
+        }
+        let j: usize = vk::any();
+        if j < LEN { assert!(mg.window[1].data[j] == data[j], "E7: add_suffixes_till changed data"); }
+        core::mem::forget(mg);
+    }
+    #[cfg_attr(kani, kani::proof)]
+    #[cfg_attr(kani, kani::unwind(12))]
+    #[cfg_attr(killingspark_zstd_rs_verif, no_mangle)]
+    pub fn e7_add_suffixes_till_7() { add_suffixes_body::<7>(); }
+    #[cfg_attr(kani, kani::proof)]
+    #[cfg_attr(kani, kani::unwind(12))]
+    #[cfg_attr(killingspark_zstd_rs_verif, no_mangle)]
+    pub fn e7_add_suffixes_till_4() { add_suffixes_body::<4>(); }
+
     #[cfg(kani)]
     #[kani::proof]
     #[kani::unwind(10)]
@@ -131,3 +233,10 @@ pub(crate) mod verif_e7 {
 //@harness e7_two_blocks kind=proof fn=MatchGenerator::next_sequence,MatchGenerator::add_data,MatchGenerator::reserve,MatchGenerator::skip_matching,MatchGenerator::add_suffixes_till,SuffixStore::insert,SuffixStore::get,SuffixStore::key props=C17,C15,C02 tier=thorough profile=dbg bound="2 blocks of 6 bytes over the alphabet {0,1} (all 2^12 contents), window 12 bytes, 8-slot suffix store" witness=e7_two_blocks timeout=3000 heavy=yes
 //@harness e7_eviction_reset kind=proof fn=MatchGenerator::next_sequence,MatchGenerator::add_data,MatchGenerator::reserve,MatchGenerator::reset props=C17 tier=thorough profile=dbg bound="blocks of 6 bytes over {0,1}, window 9 bytes (eviction), reset and reuse" witness=e7_eviction_reset timeout=3000 heavy=yes
 //@harness e7_cover kind=cover props=C17 tier=thorough profile=dbg timeout=3000 heavy=yes
+//@harness e7_suffix_store_8 kind=proof fn=SuffixStore::get,SuffixStore::insert,SuffixStore::contains_key,SuffixStore::key props=C17 tier=quick profile=rel bound="8-slot store, two arbitrary slots pre-filled with arbitrary values, every 5-byte key and every index (loop-free: complete for this capacity)" witness=e7_suffix_store_8 timeout=900
+//@harness e7_common_prefix_3_10 kind=proof fn=MatchGenerator::common_prefix_len,MatchGenerator::mismatch_chunks props=C17 tier=quick profile=rel bound="operand lengths 3 and 10, all contents" witness=e7_common_prefix_3_10 timeout=900
+//@harness e7_common_prefix_10_9 kind=proof fn=MatchGenerator::common_prefix_len,MatchGenerator::mismatch_chunks props=C17 tier=quick profile=rel bound="operand lengths 10 and 9, all contents" witness=e7_common_prefix_10_9 timeout=900
+//@harness e7_common_prefix_17_16 kind=proof fn=MatchGenerator::common_prefix_len,MatchGenerator::mismatch_chunks props=C17 tier=quick profile=rel bound="operand lengths 17 and 16 (two full 8-byte chunks), all contents" witness=e7_common_prefix_17_16 timeout=900
+//@harness e7_common_prefix_0_4 kind=proof fn=MatchGenerator::common_prefix_len,MatchGenerator::mismatch_chunks props=C17 tier=quick profile=rel bound="operand lengths 0 and 4" witness=e7_common_prefix_0_4 timeout=900
+//@harness e7_add_suffixes_till_7 kind=proof fn=MatchGenerator::add_suffixes_till props=C17 tier=quick profile=rel bound="newest entry of 7 bytes (all contents), every 0 <= suffix_idx <= idx <= 7, 8-slot stores" witness=e7_add_suffixes_till_7 timeout=900
+//@harness e7_add_suffixes_till_4 kind=proof fn=MatchGenerator::add_suffixes_till props=C17 tier=quick profile=rel bound="newest entry of 4 bytes (shorter than a key: early return), 8-slot stores" witness=e7_add_suffixes_till_4 timeout=900
